@@ -51,7 +51,7 @@ SAMPLER_SETS = {
     "Gamma": [["2", "1/2"], ["1/2", "2"], ["3", "m"]],
     "Beta": [["2", "3"], ["1/2", "3/2"], ["2", "3", "4"], ["1", "1", "m"]],
     "TruncNormal": [["0", "1", "-1", "1"], ["0", "1", "0", "2"], ["0", "4", "-1", "1"], ["1", "1", "0", "3"],
-                    ["2", "1/4", "1", "4"], ["m", "9/4", "-1", "5"]],
+                    ["2", "1/4", "1", "4"], ["m", "9/4", "0", "6"]],
     "Categorical": [["1/4", "1/4", "1/2"], ["1"], ["1/8", "7/8"], ["p", "1-p"]],
     "DiscreteUniform": [["0", "3"], ["-2", "2"], ["5", "5"]],
 }
@@ -370,6 +370,89 @@ def run_samplers(chk, nsamples, timeout):
 
 
 # ------------------------------------------------------------------------------------------------
+# the command-line action (parse_file, GoalParser, Simulator(simulation_iter), number_samples, printed means)
+# ------------------------------------------------------------------------------------------------
+
+def cli_goals(c):
+    """goal texts and their expected printed value on the run in which every source answers with option 0"""
+    w, tape, final = c["model_paths"][0]
+    if any(e not in (["i", 0], ["v", "1"]) for e in tape):
+        return None
+    st = {x: Fr(v) for x, v in zip(c["vars"], final) if v is not None}
+    goals = []
+    seen = set()
+    for mono in c["goals"]:
+        if not mono or any(x not in st for x, _ in mono):
+            continue
+        txt = "*".join(f"{x}**{k}" for x, k in mono)
+        if txt in seen:
+            continue
+        seen.add(txt)
+        val = Fr(1)
+        for x, k in mono:
+            val *= st[x] ** int(k)
+        goals.append({"text": f"E({txt})", "kind": "moment", "expected": float(val), "boundary": False})
+    v = c["vars"][0]
+    if v in st:
+        c0 = st[v]
+        goals.append({"text": f"P({v} >= {H.fr_str(c0)}) <= ?", "kind": "tail-upper", "expected": 1.0, "boundary": True})
+        goals.append({"text": f"P({v} >= {H.fr_str(c0 + 1)}) <= ?", "kind": "tail-upper", "expected": 0.0, "boundary": False})
+        goals.append({"text": f"P({v} >= {H.fr_str(c0 - 1)}) <= ?", "kind": "tail-upper", "expected": 1.0, "boundary": False})
+        goals.append({"text": f"P({v} > {H.fr_str(c0)}) >= ?", "kind": "tail-lower", "expected": 0.0, "boundary": True})
+        goals.append({"text": f"P({v} > {H.fr_str(c0 - 2)}) >= ?", "kind": "tail-lower", "expected": 1.0, "boundary": False})
+    return goals
+
+
+def run_cli(chk, recs, limit, timeout):
+    sel = [r["case"] for r in recs if r["status"] == "agree" and not r["case"]["patches"]][:limit]
+    jobs = []
+    for c in sel:
+        g = cli_goals(c)
+        if g:
+            jobs.append((c, g))
+    tasks = [{"fn": "harness.tasks.c12:cli_simulation",
+              "args": {"text": c["text"], "goal_texts": [x["text"] for x in g], "n": c["n"], "samples": 2}} for c, g in jobs]
+    results = run_tasks(tasks, timeout=timeout) if tasks else []
+    n_ok = n_bad = 0
+    for (c, g), res in zip(jobs, results):
+        chk.evaluations += 1
+        if res["status"] != "ok":
+            chk.count("cli:" + res["status"])
+            if res["status"] != "timeout":
+                chk.obligation(f"cli-run:{c['id']}", False, res)
+            continue
+        lines = res["result"]["lines"]
+        if len(lines) != len(g):
+            chk.violation(f"simulation action printed {len(lines)} results for {len(g)} goals [{c['id']}]",
+                          {"kind": "cli", "text": c["text"], "goals": [x["text"] for x in g], "lines": lines, "n": c["n"]})
+            continue
+        for goal, (label, printed) in zip(g, lines):
+            try:
+                ok = float(printed) == goal["expected"]
+            except ValueError:
+                ok = False
+            chk.count(f"cli-{goal['kind']}:" + ("ok" if ok else "FAIL"))
+            if ok:
+                n_ok += 1
+                chk.nontrivial.add(f"cli:{c['id']}:{goal['text']}")
+                continue
+            n_bad += 1
+            rec = {"kind": "cli-goal", "text": c["text"], "n": c["n"], "samples": 2, "goal": goal["text"],
+                   "goal_kind": goal["kind"], "boundary": goal["boundary"], "label": label, "printed": printed,
+                   "expected": goal["expected"], "all_goals": [x["text"] for x in g],
+                   "all_expected": [x["expected"] for x in g],
+                   "how": "harness.tasks.c12:cli_simulation(text, goals, n, samples): SimulationAction with every random "
+                          "source answering its first option; `expected` is the goal on that run's final state"}
+            fid = attribute(PROP, rec)
+            if fid:
+                chk.known(fid[0], fid[1])
+            else:
+                chk.violation(f"simulation action prints {label} = {printed}, the run's value is {goal['expected']} "
+                              f"[{c['id']}, goal {goal['text']}]", rec)
+    chk.coverage["cli_goals_checked"] = n_ok + n_bad
+
+
+# ------------------------------------------------------------------------------------------------
 # entry points
 # ------------------------------------------------------------------------------------------------
 
@@ -377,7 +460,7 @@ def run(tier):
     chk = Check(PROP, tier)
     lean_ok = lean_gate(chk, THEOREMS)
     quick = tier == "quick"
-    n_gen = 84 if quick else 1500
+    n_gen = 150 if quick else 1800
     nmax = 3 if quick else 4
     cap = 1200 if quick else 5000
     timeout = 90 if quick else 400
@@ -421,6 +504,7 @@ def run(tier):
                                                           "detail": x["detail"]} for x in n_model[:3]],
                     "harness_errors": [x["detail"] for x in n_herr[:2]], "by_family": fam})
     if lean_ok:
+        run_cli(chk, recs, 24 if quick else 200, timeout)
         run_samplers(chk, 2000 if quick else 20000, timeout)
     chk.assumptions = [
         "programs: discrete (no continuous draw), all constants dyadic; n <= %d (templates up to n = 7), at most %d paths" % (nmax, cap),
@@ -441,6 +525,18 @@ def run(tier):
 def replay(path):
     with open(os.path.join(ROOT, path) if not os.path.isabs(path) else path) as fh:
         blob = json.load(fh)
+    if blob.get("kind") == "cli-goal":
+        res = run_tasks([{"fn": "harness.tasks.c12:cli_simulation",
+                          "args": {"text": blob["text"], "goal_texts": blob["all_goals"], "n": blob["n"],
+                                   "samples": blob["samples"]}}], timeout=300)[0]
+        print(res)
+        lines = (res.get("result") or {}).get("lines") or []
+        bad = len(lines) != len(blob["all_expected"]) or any(
+            float(v) != e for (_, v), e in zip(lines, blob["all_expected"]))
+        if bad:
+            print(f"VIOLATION property={PROP} replay={path}")
+            return 1
+        return 0
     if blob.get("kind") == "sampler":
         pr = run_tasks([{"fn": "harness.tasks.c12:sampler_probe",
                          "args": {"family": blob["family"], "params": blob["params"], "state": blob["state"],
